@@ -10,10 +10,12 @@ import (
 
 	"github.com/siglens/siglens/pkg/config"
 	eswriter "github.com/siglens/siglens/pkg/es/writer"
+	"github.com/siglens/siglens/pkg/retention"
 	"github.com/siglens/siglens/pkg/segment/query"
 	sutils "github.com/siglens/siglens/pkg/segment/utils"
 	"github.com/siglens/siglens/pkg/segment/writer"
 	vsync "github.com/siglens/siglens/pkg/zzvsync"
+	"github.com/valyala/fasthttp"
 )
 
 // schedrun: one explored schedule. Party X (a list of operations) runs in its own goroutine tree; at X's k-th lock
@@ -116,6 +118,16 @@ func runSteps(steps []SchedStep) []stepRes {
 			// one metrics datapoint (OpenTSDB JSON in Event) through the ingest entry point
 			if err := writer.AddTimeSeriesEntryToInMemBuf([]byte(st.Event), sutils.SIGNAL_METRICS_OTSDB, 0); err != nil {
 				r.Err = err.Error()
+			}
+		case "retention":
+			// the time-based retention pass with a retention period of Ms hours
+			retention.DoRetentionBasedDeletion(config.GetCurrentNodeIngestDir(), st.Ms, 0)
+		case "delindex":
+			ctx := &fasthttp.RequestCtx{}
+			ctx.SetUserValue("indexName", st.Index)
+			eswriter.ProcessDeleteIndex(ctx, 0)
+			if ctx.Response.StatusCode() != 200 {
+				r.Err = fmt.Sprintf("%d %s", ctx.Response.StatusCode(), ctx.Response.Body())
 			}
 		case "tables":
 			r.Running, r.Waiting = query.VerifQueryTables()
